@@ -205,9 +205,17 @@ func (v *Version) String() string {
 
 // Compare compares this version with another Alpine version
 func (v *Version) Compare(other *Version) int {
-	// Handle invalid versions (no numeric components) - use string comparison
+	// Handle invalid versions (no numeric components). They sort after every
+	// valid version and among themselves as text; mixing a text comparison
+	// with the structured one below would not be transitive.
 	if v.numeric == nil || other.numeric == nil {
-		return strings.Compare(v.original, other.original)
+		if v.numeric != nil {
+			return -1
+		}
+		if other.numeric != nil {
+			return 1
+		}
+		return strings.Compare(strings.TrimSpace(v.original), strings.TrimSpace(other.original))
 	}
 
 	// 1. Compare numeric components (leading zeros are ignored - use actual numeric values)
